@@ -672,6 +672,9 @@ def trts_cases():
         if hunt is not None:
             # place the declination next to one of the two boundaries of the no-times region
             kind, off = hunt
+            if off == "tangent":
+                # the diurnal arc touches the standard altitude itself (cos H0 = +-1 up to rounding)
+                off = h0 if kind == "circumpolar" else -h0
             if kind == "circumpolar":
                 d2 = math.copysign(90.0 - abs(lat) + off, lat if lat != 0 else 1.0)
             else:
@@ -707,7 +710,8 @@ def trts_cases():
     hunt = st.one_of(st.none(), st.none(), st.none(),
                      st.tuples(st.sampled_from(["circumpolar", "never_rises"]),
                                st.one_of(st.floats(-6.0, 6.0), st.floats(-1.0, 1.0),
-                                         st.sampled_from([0.0, 1e-6, -1e-6, 2.0, -2.0]))))
+                                         st.sampled_from([0.0, 1e-6, -1e-6, 2.0, -2.0]),
+                                         st.just("tangent"))))
     return st.builds(build, lon, lat, a2, d2, speed, bearing, acc, acc, h0, dT, th0, hunt)
 
 
